@@ -210,6 +210,10 @@ def main():
     nn = a.n if a.mode == 'check' else 10 ** 6
     qsc = import_qsc()
     presets = ['precise QH', '2022 QH nfp7', 'r2 section 5.5', '2022 QH nfp4 well']
+    for c_, q_ in corpus_objects(('r2', 'r3')):          # distilled regression inputs first
+        v, n = predict(c_, rng, q_, None)
+        res['predictions_checked'] += n; res['violations'] += v; res['configs'] += 1
+        dist['corpus'] = dist.get('corpus', 0) + 1
     while tried < nn and (a.mode == 'check' or (time.time() - t0 < a.budget and not res['violations'])):
         tried += 1
         sg = [(1, 1), (1, -1), (-1, 1), (-1, -1)][tried % 4]
